@@ -50,7 +50,7 @@ func (docEx *DocumentEx) ToCbor() ([]byte, error) {
 
 func UnmarshalVerifiableDoc(data []byte) (*Document, *ChipAuthEvidenceBundle, error) {
 	var env cborEnvelope
-	if err := cbor.Unmarshal(data, &env); err != nil {
+	if err := cborStrict.Unmarshal(data, &env); err != nil {
 		return nil, nil, fmt.Errorf("[UnmarshalVerifiableDoc] cbor.Unmarshal(envelope) error: %w", err)
 	}
 
@@ -67,7 +67,7 @@ func UnmarshalVerifiableDoc(data []byte) (*Document, *ChipAuthEvidenceBundle, er
 	}
 
 	var raw rawDocumentEx
-	if err := cbor.Unmarshal(env.Payload, &raw); err != nil {
+	if err := cborStrict.Unmarshal(env.Payload, &raw); err != nil {
 		return nil, nil, fmt.Errorf("[UnmarshalVerifiableDoc] cbor.Unmarshal(rawDocumentEx) error: %w", err)
 	}
 
